@@ -782,6 +782,29 @@ func (x *txnCtx) writes(r column.Row, off uint32, op *Op) {
 func (x *txnCtx) issue(r column.Row, col ColSpec, merge bool, v MVal, via int) {
 	txn := x.txn
 	n := col.Name
+	if via == 2 && !merge && col.Kind != KKey && txn.Index()%2 == 1 {
+		// the untyped flavour through the map API (rows at odd offsets)
+		var val any
+		switch col.Kind {
+		case KBool:
+			val = v.U != 0
+		case KString, KEnum:
+			val = v.S
+		case KRecord:
+			rec := new(Rec)
+			if err := rec.UnmarshalBinary([]byte(v.S)); err != nil {
+				panic(err)
+			}
+			val = rec
+		default:
+			val = nums[col.Kind].toAny(v.U)
+		}
+		if err := r.SetMany(map[string]any{n: val}); err != nil {
+			x.w.fail(violation("setmany-error", "Row.SetMany({%q: ...}) on an existing %s column returned %v", n, col.Kind, err))
+		}
+		x.w.stats.probe("store-through-Row.SetMany")
+		return
+	}
 	switch col.Kind {
 	case KBool:
 		switch via {
